@@ -370,6 +370,7 @@ const c15Rule = "one prefix of PRNG group operations (join/sync/heartbeat/leave/
 
 func TestVerifC15(t *testing.T) {
 	r := verifkit.Start(t, "C15", "twins")
+	gSeedSalt = r.Seed
 	defer r.Finish(c15Rule+" Part 1 (InMemoryStore, synctest virtual time, full volume) as described. Part 2 (EtcdStore over an embedded single-node etcd, real time, lower volume; counters prefixed etcd_): twin B is a new coordinator over a SECOND EtcdStore client to the same etcd, twin A continues on an in-memory shadow, no twin C, no time advance (timeouts >= 60 s, cleanup interval 1 h); additionally the new coordinator's restored session/rebalance timeouts are compared with the old coordinator's in-package (they have no observable effect without the passage of time); a case in which the etcd client returned any error is inconclusive, never a violation. non-trivial = failover of a group with >=2 members whose comparison phase ran",
 		"no request is in flight at the failover point (failover between requests)", "the new coordinator is touched by a request at the failover instant (it loads groups lazily)", "join reply codes during an unfinished rebalance are not compared (rebalance progress is not in the statement's list)",
 		"embedded etcd is single-node; no etcd faults are injected", "a wall-clock watchdog turns a stuck etcd part into inconclusive")
